@@ -584,16 +584,28 @@ pub fn main() {
                     continue; // reported above
                 }
                 let _ = idx;
+                // A legacy section with upper-case letters (`[a.O]`, git: a.o) keeps its spelling in gitoxide, so it also
+                // answers the canonical query for a quoted subsection of that spelling (`[a "O"]`, git: a.O) in the same file.
+                // What gitoxide's documented-but-exact-case rule yields for this query:
+                let gix_rule: Vec<Vec<u8>> = flat
+                    .iter()
+                    .filter(|(s, e)| lower(&s.name) == g.section && s.sub == g.sub && lower(&e.key) == g.key)
+                    .map(|(_, e)| if e.implicit { Vec::new() } else { e.value.clone() })
+                    .collect();
+                let foreign_legacy_upper = flat.iter().any(|(s, e)| {
+                    s.legacy && lower(&s.name) == g.section && s.sub == g.sub && lower(&e.key) == g.key && s.sub.as_deref().map_or(false, |sub| sub != lower(sub).as_slice())
+                });
                 let (Ok(section), Ok(key)) = (std::str::from_utf8(&g.section), std::str::from_utf8(&g.key)) else { continue };
                 let sub = g.sub.as_deref().map(|s| s.as_bstr());
+                let got: Vec<Vec<u8>> = file.raw_values_by(section, sub, key).map(|v| v.into_iter().map(|v| v.to_vec()).collect()).unwrap_or_default();
                 let sig = if multi_dot {
                     "legacy-multi-dot-section"
-                } else if legacy_upper {
+                } else if legacy_upper || (foreign_legacy_upper && got == gix_rule) {
+                    // only the known class if the answer is exactly what the exact-case rule predicts
                     "legacy-subsection-case-sensitive"
                 } else {
                     "lookup-differs"
                 };
-                let got: Vec<Vec<u8>> = file.raw_values_by(section, sub, key).map(|v| v.into_iter().map(|v| v.to_vec()).collect()).unwrap_or_default();
                 if got != expected {
                     f.add(sig, format!("raw_values_by({section:?}, {:?}, {key:?}) = {:?}, git --get-all: {:?} in {}", sub, got.iter().map(|v| show(v)).collect::<Vec<_>>(), expected.iter().map(|v| show(v)).collect::<Vec<_>>(), show(&doc.text)));
                     continue;
